@@ -57,7 +57,13 @@ BigLits == << Lit("", FALSE, <<2,1,4,7,4,8,3,6,4,8>>),                       \* 
               Lit("", TRUE, [k \in 1..20 |-> 15]),
               \* in-range values written with many leading zeros (decimal, 25 and 40 digits; hex, 30 digits)
               Lit("", FALSE, [k \in 1..25 |-> IF k = 25 THEN 7 ELSE 0]), Lit("-", FALSE, [k \in 1..40 |-> IF k >= 39 THEN 1 ELSE 0]),
-              Lit("+", FALSE, [k \in 1..22 |-> IF k >= 20 THEN 9 ELSE 0]), Lit("-", TRUE, [k \in 1..30 |-> IF k = 30 THEN 2 ELSE 0]) >>
+              Lit("+", FALSE, [k \in 1..22 |-> IF k >= 20 THEN 9 ELSE 0]), Lit("-", TRUE, [k \in 1..30 |-> IF k = 30 THEN 2 ELSE 0]),
+              \* values that are small modulo 2^32 (a truncating cast would make them look in range)
+              Lit("", FALSE, <<4,2,9,4,9,6,7,2,9,7>>),                       \* 2^32 + 1
+              Lit("", TRUE, <<1,0,0,0,0,0,0,0,1>>),                          \* 0x100000001
+              Lit("-", FALSE, <<4,2,9,4,9,6,7,2,9,5>>),                      \* -(2^32 - 1)
+              Lit("", TRUE, <<1,0,0,0,0,0,0,0,0>>),                          \* 0x100000000
+              Lit("", FALSE, <<6,5,5,3,7>>), Lit("-", FALSE, <<6,5,5,3,5>>) >>   \* 2^16 + 1, -(2^16 - 1): small modulo 2^16
 
 Ins(mn, ops) == [mn |-> mn, ops |-> ops]
 
@@ -127,6 +133,15 @@ AsmA5 ==
   { <<"a5", <<Ins("lddw", <<RegOf(0), IntOp(BigLits[k])>>)>> >> : k \in 1..Len(BigLits) } \cup
   { <<"a5", <<Ins("ja", <<IntOp(BigLits[k])>>)>> >> : k \in 1..Len(BigLits) } \cup
   { <<"a5", <<Ins("ldxw", <<RegOf(0), Mem(Lit("", FALSE, <<1>>), SignedLit(BigLits[k]))>>)>> >> : k \in 1..Len(BigLits) } \cup
+  \* ... in the immediate or offset position of every other operand shape
+  { <<"a5", <<Ins(mn, <<IntOp(BigLits[k])>>)>> >> : mn \in {"call", "callx", "ldabsw", "ldabsdw"}, k \in 1..Len(BigLits) } \cup
+  { <<"a5", <<Ins(mn, <<RegOf(1), IntOp(BigLits[k])>>)>> >> : mn \in {"add", "add32", "ldindw", "lsh"}, k \in 1..Len(BigLits) } \cup
+  { <<"a5", <<Ins("stw", <<MemOp(1, 2, 1), IntOp(BigLits[k])>>)>> >> : k \in 1..Len(BigLits) } \cup
+  { <<"a5", <<Ins("stw", <<Mem(Lit("", FALSE, <<1>>), SignedLit(BigLits[k])), IntOf(1, 1)>>)>> >> : k \in 1..Len(BigLits) } \cup
+  { <<"a5", <<Ins("stxw", <<Mem(Lit("", FALSE, <<1>>), SignedLit(BigLits[k])), RegOf(2)>>)>> >> : k \in 1..Len(BigLits) } \cup
+  { <<"a5", <<Ins(mn, <<RegOf(1), IntOp(BigLits[k]), IntOf(1, 1)>>)>> >> : mn \in {"jeq", "jsgt32"}, k \in 1..Len(BigLits) } \cup
+  { <<"a5", <<Ins(mn, <<RegOf(1), IntOf(1, 1), IntOp(BigLits[k])>>)>> >> : mn \in {"jeq", "jne32"}, k \in 1..Len(BigLits) } \cup
+  { <<"a5", <<Ins("jgt", <<RegOf(1), RegOf(2), IntOp(BigLits[k])>>)>> >> : k \in 1..Len(BigLits) } \cup
   { <<"a5", <<Ins("mov", <<Reg([BigLits[k] EXCEPT !.sign = "", !.hex = FALSE]), IntOf(1, 1)>>)>> >> : k \in {1, 5, 6, 14, 15, 16, 17} } \cup
   { <<"a5", <<Ins("lddw", <<RegOf(0), IntOp(Lit(sg, hx, [j \in 1..n |-> IF j = 1 THEN 1 ELSE 0]))>>)>> >> :
       sg \in {"", "-"}, hx \in BOOLEAN, n \in 1..25 }
